@@ -414,12 +414,10 @@ func gobDecodeItem(data []byte) (Item, error) {
 	typ := ActivityVocabularyType("")
 	mm, err := gobDecodeObjectAsMap(data)
 	if err == nil {
-		var sTyp []byte
-		sTyp, isObject = mm["type"]
-		if isObject {
+		// a property map is an object whether or not it carries a type or an id
+		isObject = true
+		if sTyp, ok := mm["type"]; ok {
 			typ = ActivityVocabularyType(sTyp)
-		} else {
-			_, isObject = mm["id"]
 		}
 	}
 	if isObject {
